@@ -1,7 +1,8 @@
 #!/venv/bin/python
 """Do the monitors stay silent on behaviour-preserving refactorings?  (self-validation aid, not a registered check)
 
-usage: tools/refactor_probe.py [scale]
+usage: tools/refactor_probe.py [scale] [--patch file.diff] [--no-rewrite] [--attrs a=b,...] [--direct-events]
+  (--patch applies a hand-written refactoring first; with --no-rewrite only that patch is judged)
 
 Builds a scratch copy of /repo/src (outside /repo and /verif, removed afterwards) and rewrites it with transformations that
 cannot change behaviour:
@@ -122,6 +123,14 @@ def main():
         ATTRS.update(dict(a.split("=") for a in args[i + 1].split(",")))
         del args[i:i + 2]
     global DIRECT_EVENTS
+    patch, rewrite = None, True
+    if "--patch" in args:
+        i = args.index("--patch")
+        patch = os.path.abspath(args[i + 1])
+        del args[i:i + 2]
+    if "--no-rewrite" in args:
+        rewrite = False
+        args.remove("--no-rewrite")
     if "--direct-events" in args:
         DIRECT_EVENTS = True
         args.remove("--direct-events")
@@ -131,12 +140,17 @@ def main():
     try:
         shutil.copytree("/repo/src", os.path.join(tmp, "src"), ignore=shutil.ignore_patterns("*.egg-info", "__pycache__"))
         shutil.copytree("/repo/tests", os.path.join(tmp, "tests"), ignore=shutil.ignore_patterns("__pycache__"))
+        if patch:
+            r = subprocess.run(["patch", "-p1", "-s", "-d", tmp, "-i", patch], capture_output=True, text=True)
+            if r.returncode != 0:
+                print("patch does not apply:", r.stdout[-300:])
+                return 2
         root = os.path.join(tmp, "src", "factorysimpy")
         files = [os.path.join(d, f) for d, _, fs in os.walk(root) for f in fs if f.endswith(".py")]
         trees = {p: ast.parse(open(p).read()) for p in files}
         priv = private_methods(trees)
         n_loc = 0
-        for p, t in trees.items():
+        for p, t in (trees.items() if rewrite else ()):
             rw = Rewriter(priv, hand_nodes=(os.sep + "nodes" + os.sep) in p)
             t2 = rw.visit(t)
             ast.fix_missing_locations(t2)
